@@ -163,25 +163,24 @@ fn _parse_with_lexer_ctx(lexer: &mut Lexer, r: &impl Resolve, ctx: Option<&Conte
         // First backup position
         let pos_bk = lexer.get_pos();
 
-        let second_lexeme = t!(lexer.next());
-        if second_lexeme.is_integer() {
-            let third_lexeme = t!(lexer.next());
-            if third_lexeme.equals(b"R") {
-                // It is indeed a reference to an indirect object
-                check(flags, ParseFlags::REF)?;
-                Primitive::Reference (PlainRef {
-                    id: t!(first_lexeme.to::<ObjNr>()),
-                    gen: t!(second_lexeme.to::<GenNr>()),
-                })
-            } else {
-                check(flags, ParseFlags::INTEGER)?;
-                // We are probably in an array of numbers - it's not a reference anyway
-                lexer.set_pos(pos_bk); // (roll back the lexer first)
-                Primitive::Integer(t!(first_lexeme.to::<i32>()))
+        // look ahead for `gen R`; running into the end of the data just means it is an integer
+        let second_lexeme = match lexer.next() {
+            Ok(second) if second.is_integer() => match lexer.next() {
+                Ok(third) if third.equals(b"R") => Some(second),
+                _ => None
             }
+            _ => None
+        };
+        if let Some(second_lexeme) = second_lexeme {
+            // It is indeed a reference to an indirect object
+            check(flags, ParseFlags::REF)?;
+            Primitive::Reference (PlainRef {
+                id: t!(first_lexeme.to::<ObjNr>()),
+                gen: t!(second_lexeme.to::<GenNr>()),
+            })
         } else {
             check(flags, ParseFlags::INTEGER)?;
-            // It is but a number
+            // It is but a number (maybe in an array of numbers) - not a reference anyway
             lexer.set_pos(pos_bk); // (roll back the lexer first)
             Primitive::Integer(t!(first_lexeme.to::<i32>()))
         }
